@@ -3,7 +3,7 @@ From Coq Require Import String.
    case = (chan <nchans> <accept rows ((0/1 ...) ...)> <actions>)
      actions: (rekey x rank) (hs x) (dlv x j) (send x) (age x minutes)
    obs  = one entry per action: (<result> <emitted kinds> (<slot> <slot> <slot>) <remote>) *)
-From P2PV Require Import Lib.Base Model.Handshake Model.Channel Run.RunFrag.
+From P2PV Require Import Lib.Base Model.Handshake Model.Channel Run.RunFrag Model.Timer.
 Open Scope N_scope.
 
 Record world := mkWd { wd_chans : list chan; wd_msgs : list wire; wd_tag : N; wd_clock : N }.
@@ -208,4 +208,32 @@ Definition run_chan (which : N) (case obs : sx) : sx :=
   | _ => bad_case
   end.
 Definition run_C05 := run_chan 5.
-Definition run_C07 := run_chan 7.
+
+(* ---- the real p2pke.Timer driven by scripts: case = (timer (<op> ...))  op = (arm <budget>) | (stop) | (q)
+   obs = (<fires so far> ...) one number per (q).  The callback re-arms the timer itself while it has budget. ---- *)
+Definition top_of_sx (x : sx) : option top :=
+  match x with
+  | SL [t; SN b] => if is_sym "arm" t then Some (OArm (N.to_nat b)) else None
+  | SL [t] => if is_sym "stop" t then Some OStop else if is_sym "q" t then Some OQuiesce else None
+  | _ => None
+  end.
+Fixpoint tops_of_sx (l : list sx) : list top :=
+  match l with [] => [] | x :: t => match top_of_sx x with Some o => o :: tops_of_sx t | None => tops_of_sx t end end.
+Fixpoint sx_eq_list (a b : list sx) : bool :=
+  match a, b with [], [] => true | x :: a', y :: b' => sx_eqb x y && sx_eq_list a' b' | _, _ => false end.
+Definition run_timer (ops : list sx) (obs : sx) : sx :=
+  let model := map (fun n => SN (N.of_nat n)) (tscript timer0 (tops_of_sx ops)) in
+  SL [SL model;
+      match obs with
+      | SL es => if sx_eq_list es model then ok
+                 else if existsb (fun p => match p with (SN a, SN b) => a <? b | _ => false end) (combine es model)
+                 then bad "timer-stopped-firing-although-its-callback-re-armed-it"
+                 else bad "timer-fired-although-stopped-or-more-often-than-armed"
+      | _ => bad "unexpected-result"
+      end].
+
+Definition run_C07 (case obs : sx) : sx :=
+  match case with
+  | SL [t; SL ops] => if is_sym "timer" t then run_timer ops obs else run_chan 7 case obs
+  | _ => run_chan 7 case obs
+  end.
